@@ -122,8 +122,4 @@ func parseLayerB(t *gen.Tools, sw *sweeper, r *ev.Run, prop, tier string, cands 
 }
 
 func init() {
-	replays["parse"] = func(rp *ev.Replay) int {
-		fmt.Printf("grammar:\n%v\ntokens: %v\nrecorded: %s\nlog: %v\n", rp.Case["grammar"], rp.Case["tokens"], rp.What, rp.Case["log"])
-		return checks[rp.Property]("quick")
-	}
 }
